@@ -175,6 +175,18 @@ fn run(ctx: &RunCtx) -> Report {
         sim.run_for(rng.range(0, 300) * MS);
         report.probe("put_in_flight_runs", 1);
     }
+    // 1 plain async run in 5 (own random stream): *several callers* - two or three further calls for the same key
+    // are made 5..80 ms after the first one, before any replica has answered (all replicas take 150..400 ms in
+    // these runs): every caller shares the one lookup and must be handed everything it delivers
+    let mut mrng = Rng::new(crate::rng::key(ctx.seed, &[crate::rng::tag("c16-several-callers")]));
+    let several = !use_sync && !with_put && !late_family && !long_stream && enumerated.is_none() && mrng.chance(1, 5);
+    if several {
+        for i in 0..n {
+            rawnet.with_peer(i, |p| p.delay = mrng.range(150, 400) * MS);
+        }
+        report.probe("several_callers_runs", 1);
+    }
+    let mut extra_ops: Vec<OpId> = vec![];
     let t_call = sim.now();
     let mut async_op: Option<OpId> = None;
     if use_sync {
@@ -199,6 +211,14 @@ fn run(ctx: &RunCtx) -> Report {
     } else {
         let op = sim.get_mutable_most_recent(reader, pk, salt.clone());
         async_op = Some(op);
+        if several {
+            for _ in 0..mrng.usize(1, 2) {
+                sim.run_for(mrng.range(5, 40) * MS);
+                extra_ops.push(sim.get_mutable_most_recent(reader, pk, salt.clone()));
+            }
+            let all: Vec<OpId> = extra_ops.clone();
+            sim.run_ops(&all, sim.now() + 60 * SEC);
+        }
         if !sim.run_ops(&[op], sim.now() + 60 * SEC) {
             report.violate("hang", "most-recent-hang", "AsyncDht::get_mutable_most_recent did not return within 60 s".into());
         }
@@ -338,6 +358,22 @@ fn run(ctx: &RunCtx) -> Report {
             }
             (None, Some(e)) => report.violate("most-recent", "most-recent-none", format!("returned None although items were delivered (max seq {})", e.0)),
             (Some(g), None) => report.violate("most-recent", "most-recent-phantom", format!("returned seq {} although no item was delivered", g.0)),
+        }
+    }
+    // the further callers of the same lookup got the same answer
+    if several && report.violation.is_none() {
+        for (i, o) in extra_ops.iter().enumerate() {
+            if !sim.op_done(*o) {
+                report.violate("hang", "most-recent-hang", format!("caller {} of the shared lookup did not return within 60 s", i + 2));
+                break;
+            }
+            if let Some(Outcome::MostRecent(r)) = sim.take_outcome(*o) {
+                let got = r.map(|i| (i.seq(), i.value().to_vec()));
+                if got != expected {
+                    report.violate("most-recent", "later-caller-of-the-same-lookup-misses-items", format!("caller {} (issued a few ms after the first, before any replica answered) got {:?} but the lookup delivered seqs {:?}", i + 2, got.as_ref().map(|g| g.0), delivered.iter().map(|d| d.0).collect::<Vec<_>>()));
+                    break;
+                }
+            }
         }
     }
     if let Some(d) = sim.died(reader) {
